@@ -8,14 +8,14 @@ LEVEL = {
  "C05": ("Structural necessary conditions of TTL safety decided on every path of the cache code: the only public lookup filters TTL 0, the reported TTL is the floor of saturating (expiry - fresh now), expiry = now + ttl, TTL-0 records never reach Cache::insert, upsert replaces an equal value, unchecked getters have no production caller; the TTL guard tests the very record that is inserted; a lookup hands out every record list of the name for ANY and the list of the asked type otherwise. Behaviour along timed histories is declined.", "3/C05"),
 }
 LEVEL.update({
- "C18": ("The ProtocolMode -> record-type order table, the link between the iterated type, the question asked and the family filter of get_ip, the two destinations handed to query_nameserver (resolved ip + configured port; configured forwarder) and the plumbing of those values from the CLI to the sockets are decided as dataflow facts over every path, including the FromStr table of the mode, the server copying each setting from the same-named CLI field, and get_ip following aliases of any type before the family filter. Nothing about routing below the socket API is claimed.", "3/C18"),
- "C19": ("The lock discipline that makes reload atomic is decided on every path: single write site, dominated by a successful load, one whole-value store through the guard, no await while the write guard is live, one read guard (or an owned snapshot) spanning resolve(), loader failure flag set on every error arm and never cleared; and what a successful load contains (every non-directory entry of every configured directory, each zone file merged into the zone of its apex, hosts combined and merged last); the shared cache, which a reload does not replace, only ever receives upstream data; no blocking std::fs call in an async body; the parsers' rejection rules (C11.1, C14.3) are decided here as well. Timing of signals against in-flight queries is reduced to this discipline.", "3/C19"),
+ "C18": ("The ProtocolMode -> record-type order table, the link between the iterated type, the question asked and the family filter of get_ip, the two destinations handed to query_nameserver (resolved ip + configured port; configured forwarder) and the plumbing of those values from the CLI to the sockets are decided as dataflow facts over every path, including the FromStr table of the mode, the server copying each setting from the same-named CLI field, get_ip following aliases of any type before the family filter, and addresses the resolver holds being found (glue only for its own type; an empty hosts/hints answer falls through to the cache). Nothing about routing below the socket API is claimed.", "3/C18"),
+ "C19": ("The lock discipline that makes reload atomic is decided on every path: single write site, dominated by a successful load, one whole-value store through the guard, no await while the write guard is live, one read guard (or an owned snapshot) spanning resolve(), loader failure flag set on every error arm and never cleared; and what a successful load contains (every non-directory entry of every configured directory, each zone file merged into the zone of its apex, hosts combined and merged last); the shared cache, which a reload does not replace, only ever receives upstream data; no blocking std::fs call in an async body; the parsers' rejection rules (C11.1, C14.3), their freedom from panics (C17.1) and the merge rules (C12.1, C12.2) are decided here as well. Timing of signals against in-flight queries is reduced to this discipline.", "3/C19"),
 })
 LEVEL.update({
  "C06": ("The filter is decided structurally on every path of the validator: the six request/response conditions gate `true`; a reply is returned only behind that gate; every record admitted from a reply section is control-dependent on a test of its own owner; the CNAME admit-map is filled only by the chain walk and targets must agree; NS hosts/match name only for strictly closer ancestors; glue only for selected hosts and only from the permitted sections; a glue record returned as the answer has the asked type and the question's name; only fields of the validator's result reach the cache. What an adversarial reply achieves beyond these gates is declined.", "3/C06"),
 })
 LEVEL.update({
- "C01": ("On every path of resolve_local the cache is read only after the selected zone was found non-authoritative, a non-authoritative hit reaches the cache only for ANY/empty answers, prioritising_merge keeps the local side at all six call sites, the zone is chosen longest-suffix-first, a Done local result short-circuits every upstream call, NXDOMAIN/AA provenance is confined to the authoritative arms, no record list is emptied or moved out of in the resolver cluster, and the server keeps sections, AA and RCODE per result variant (SERVFAIL only for a reply with nothing in answer and authority). Equality of answers with an oracle is declined.", "3/C01"),
+ "C01": ("On every path of resolve_local the cache is read only after the selected zone was found non-authoritative, a non-authoritative hit reaches the cache only for ANY/empty answers, prioritising_merge keeps the local side at all six call sites, the zone is chosen longest-suffix-first, a Done local result short-circuits every upstream call, NXDOMAIN/AA provenance is confined to the authoritative arms, no record list is emptied or moved out of in the resolver cluster, and the server keeps sections, AA and RCODE per result variant (SERVFAIL only for a reply with nothing in answer and authority); an empty answer of a non-authoritative zone falls through to the cache; what local data supplies is what the files define (the merge and record-fidelity rules of C12 / C02, decided here as well). Equality of answers with an oracle is declined.", "3/C01"),
  "C08": ("Termination mechanisms are decided structurally: the only entry to the timeout-less resolvers is through a constant <=60 s tokio timeout; the set of functions that can await network I/O without a timeout is exactly the six transport helpers and each is awaited under a constant <=5 s timeout; the limit/duplicate guards dominate every re-entrant call; push/pop is a balanced {0,1} typestate; Context's predicates are len==capacity / contains with capacity RECURSION_LIMIT; every resolver loop has a progress step; the wire decoder an upstream reply goes through cannot spin (C03.2 - C03.4 decided here as well); the resolver never fabricates a ResourceRecord. Wall-clock behaviour is declined.", "3/C08"),
  "C10": ("Chain order is decided at all concatenation sites (chain so far is the receiver, nested resolution appended), follow-up questions keep qtype/qclass and take the alias target, the shared cluster guards and push/pop typestate bound alias loops (with the limit test, duplicate test and capacity of the question stack they consult), follow_cnames returns None on a revisit, aliases are suppressed for CNAME/ANY questions; the alias records themselves are faithful (owner = question name from a zone or wildcard; exactly the walked links from an upstream answer). All alias graphs over all sources are declined.", "3/C10"),
 })
@@ -27,14 +27,14 @@ LEVEL.update({
  "C15": ("The bookkeeping invariants that exactness of prune rests on are decided statically: each shared operation is one lock around one Cache call (field private, no unsafe), on every enumerated path of upsert the tuple count, Partition.size and current_size move together, both sizes drop by the same counted amount in the expired walk, queue updates are paired with last_read/next_expiry stores and partition insert/remove, next_expiry is only ever a minimum over all records of the name, eviction happens only in `while current_size > desired_size` after the expired walk, the report fields have the documented origins, and the server publishes that report on every path. LRU order and counts along histories are declined; loop termination is conditional on these invariants.", "3/C15"),
 })
 LEVEL.update({
- "C14": ("The line state machine is checked as a typestate over feasible paths (the reading-name state is never left without flushing the name or failing), together with the transition table for '#', '%', non-ASCII and parse failures, a token's slice starting at the index of the character that opened it, the stored address being the address as parsed (no conversion between parse and family dispatch), the v4/A and v6/AAAA family tables of all converters, the serialiser's per-family output and the tools' call pairs. hosts(5) semantics over arbitrary text is declined.", "3/C14"),
- "C16": ("Well-formedness is decided by ownership and dominance: only the constructors can build DomainName/Label, no field is mutated elsewhere, the 63/255 limits and the root-label conditions dominate every construction, the recorded length is accumulated only from label count and label lengths, bytes pass through to_ascii_lowercase, comparison/hash impls are derived, is_subdomain_of is slice::ends_with; the text reader gives up only for an unbuildable or interior-empty label, and the text writer emits every octet verbatim. The dotted-text round trip is declined.", "3/C16"),
+ "C14": ("The line state machine is checked as a typestate over feasible paths (the reading-name state is never left without flushing the name or failing), together with the transition table for '#', '%', non-ASCII and parse failures, a token's slice starting at the index of the character that opened it, the stored address being the address as parsed (no conversion between parse and family dispatch), the v4/A and v6/AAAA family tables of all converters, the serialiser's per-family output, the tools' call pairs and their non-zero exit on a parse error, per-family replacement across merged files. hosts(5) semantics over arbitrary text is declined.", "3/C14"),
+ "C16": ("Well-formedness is decided by ownership and dominance: only the constructors can build DomainName/Label, no field is mutated elsewhere, the 63/255 limits and the root-label conditions dominate every construction, the recorded length is accumulated only from label count and label lengths, bytes pass through to_ascii_lowercase, comparison/hash impls are derived, is_subdomain_of is slice::ends_with; the text reader splits the text as given and gives up only for an unbuildable or interior-empty label, and the text writer emits every octet verbatim. The dotted-text round trip is declined.", "3/C16"),
 })
 LEVEL.update({
- "C09": ("The request path's shape is decided on every path: the four dispatch outcomes of handle_raw_message, header-field origins of make_response / FORMERR, the triage table and REFUSED arm (a question is unknown when its type or its class is), RA = !authoritative_only and recursion iff RD && RA, the 512-byte cut with TC and the TCP length prefix, a TCP read loop that is left at EOF, single send/handle sites outside loops, the section/AA/RCODE map per resolver result, serve loops without exit edges and process::exit confined to start-up. One clause is violated on the pinned tree and recorded as a known finding (referral NS records reach the answer section in authoritative-only mode). Live socket behaviour is declined.", "3/C09"),
+ "C09": ("The request path's shape is decided on every path: the four dispatch outcomes of handle_raw_message, header-field origins of make_response / FORMERR, the triage table and REFUSED arm (a question is unknown when its type or its class is), RA = !authoritative_only and recursion iff RD && RA, the 512-byte cut with TC and the TCP length prefix, a TCP read loop that is left at EOF, the UDP handler receiving exactly the octets recv_from reported, a decoder that cannot spin on a datagram, single send/handle sites outside loops, the section/AA/RCODE map per resolver result, serve loops without exit edges and process::exit confined to start-up. One clause is violated on the pinned tree and recorded as a known finding (referral NS records reach the answer section in authoritative-only mode). Live socket behaviour is declined.", "3/C09"),
 })
 LEVEL.update({
- "C04": ("Codec agreement is decided as table/sequence equality extracted from the program: the six integer<->enum tables are mutually inverse, match the RFC code points and carry unlisted values through; the writer's and reader's field sequences agree per RDATA variant, for the header bit layout, question and RR prefix, and with an embedded RFC 1035/2782/3596 table; RDLENGTH back-patching, the 14-bit bound on memoised offsets, pointer emission and section counts have the required shapes; each header flag bit is written under its own field alone. Equality decode(encode(m)) == m over all message values is declined.", "3/C04"),
+ "C04": ("Codec agreement is decided as table/sequence equality extracted from the program: the six integer<->enum tables are mutually inverse, match the RFC code points and carry unlisted values through; the writer's and reader's field sequences agree per RDATA variant, for the header bit layout, question and RR prefix, and with an embedded RFC 1035/2782/3596 table; RDLENGTH back-patching, the 14-bit bound on memoised offsets, pointer emission and section counts have the required shapes; each header flag bit is written under its own field alone; the fixed-layout part is rejected only when a read runs out (a bare 12-octet header decodes). Equality decode(encode(m)) == m over all message values is declined.", "3/C04"),
 })
 LEVEL.update({
  "C03": ("Every panic-capable site (bounds assertions, slice ranges, arithmetic assertions, unwraps) in the 26 functions reachable from Message::from_octets is enumerated from MIR and discharged by a linear-constraint argument over dominating comparisons on the same cursor, range-loop indices, a magnitude rule for additions, or a checked structural justification; every decoder loop consumes input; compression pointers are followed only to a strictly earlier 14-bit offset and no call cycle is reachable from the decoder (so the stack depth does not depend on the message); errors carry the header ID; the strictness guards (63/192/255/RDLENGTH) dominate acceptance; the reader layout and the code tables equal the RFC's; every section is read to its count (no early exit that goes on decoding). Agreement with a reference decoder is declined (DESIGN.md section 3/C03).", "3/C03"),
@@ -46,7 +46,7 @@ LEVEL.update({
  "C13": ("The writer's escape classes (all 256 octets x quoted/unquoted) and the tokeniser's character classes (4 states x 130 characters) are extracted as condition tables from the MIR and compared exhaustively: everything written literally is an ordinary token character, every special character is escaped, backslash-X never uses a digit, backslash-DDD is written and read as the same three decimal digits; RecordType Display/FromStr tables are inverse; every RDATA variant the writer prints has a parser arm with the same fields in the same order; every name of both record maps and every record (but the SOA) is written; $ORIGIN / relative-name conditions agree, and the reader builds the apex those conditions assume (SOA owner, or the root zone without a SOA). Whole-zone equality is declined (and `@`/`*` labels are documented as undecided).", "3/C13"),
 })
 LEVEL.update({
- "C11": ("The stated rejections ($INCLUDE, second SOA, wildcard SOA, outside the apex, no origin, nothing to inherit, class other than IN) exist and dominate loading; the inheritance state is updated first thing in both record arms; the @ / absolute / relative and * / *. dispatch with the origin in force handed to every entry parser, the apex being the SOA record's own owner, the SOA => authoritative apex construction and the max(soa.minimum, ttl) clamp on both insert paths have the required shape; no parser Result is discarded outside the documented back-tracking helper; the tokeniser's character classes are tabulated against the writer's (shared with C13.1) and its parenthesis / newline transitions against RFC 1035 section 5.1. That parsing yields exactly the denoted records for every rendering is declined.", "3/C11"),
+ "C11": ("The stated rejections ($INCLUDE, second SOA, wildcard SOA, outside the apex, no origin, nothing to inherit, class other than IN) exist and dominate loading; the inheritance state is updated first thing in both record arms; the @ / absolute / relative and * / *. dispatch with the origin in force handed to every entry parser, the apex being the SOA record's own owner, the SOA => authoritative apex construction and the max(soa.minimum, ttl) clamp on both insert paths have the required shape; no parser Result is discarded outside the documented back-tracking helper; every RDATA form has a parser arm with the writer's field order; the tokeniser's character classes are tabulated against the writer's (shared with C13.1) and its parenthesis / newline transitions against RFC 1035 section 5.1. That parsing yields exactly the denoted records for every rendering is declined.", "3/C11"),
 })
 TECH = {
  "C11": "custom MIR rules: error-exit guard sets, first-in-arm dominance, dispatch tables from edge facts, ORIGIN of constructor arguments, result-consumption (error discipline) scan, TABULATE",
